@@ -82,6 +82,26 @@ def guard_always_disarmed(ctx, tag, S):
             if fs and fs[-1] == flag and s['rv']['k'] == 'use' and s['rv']['op']['k'] == 'const' and 'false' in s['rv']['op']['v']:
                 dis.append(i)
         ok = a is not None and a['ready_bb'] is not None and bool(dis) and cfg.all_paths_pass(f, a['ready_bb'], cfg.exits(f), set(dis))
+        # every response hand-off (send on the response queue) completes before the disarm: it is inside the Abortable, or its await
+        # dominates the disarm
+        inner_ids = set()
+        for r, _ in P.root(P.operand(f, ab[0][1]['args'][0], at=ab[0][0])):
+            if r[0] == 'agg':
+                inner_ids.add(P._agg_rv(r).get('adt_id'))
+        late = []
+        for g in F.with_descendants(ex):
+            for bb2, t2 in g.calls():
+                if callee_is(t2, 'mpsc::Sender::send', 'mpsc::Sender::try_send', 'mpsc::Sender::send_timeout'):
+                    inside = any(g.id == i or (i and g.id.startswith(i)) for i in inner_ids)
+                    if inside:
+                        continue
+                    from engine.asyncs import await_of_call
+                    aw2 = await_of_call(P, g, bb2) if g.id == f.id else None
+                    if not (aw2 and aw2['ready_bb'] is not None and dis and all(cfg.dominates(f, aw2['ready_bb'], d_) for d_ in dis)):
+                        late.append(g.loc(t2))
+        R.ob(tag, ('InFlightRequest::execute', 'guard stays armed until the response is handed over'), not late,
+             'the response hand-off happens while the guard is still armed (inside the Abortable or before the disarm): an execution dropped while waiting for buffer space still reports its id for clean-up',
+             late or [f.loc(ab[0][1])])
         R.ob(tag, ('InFlightRequest::execute', 'guard disarmed on every path once the Abortable finished'), ok,
              'whether the handler completed or was aborted, the finished execution clears its guard: it never queues its id for clean-up afterwards (a stale clean-up could un-track a request that reuses the id)',
              [f.loc(ab[0][1])])
